@@ -16,8 +16,14 @@ use crate::{
 };
 use embedded_io_async::Read;
 
-#[derive(Clone)]
-pub struct AnyProvider<const N: usize>(pub u8);
+pub struct AnyProvider<const N: usize>(pub u8, pub u16);
+
+// Each clone (the category walker, each range reader) starts its own address history.
+impl<const N: usize> Clone for AnyProvider<N> {
+    fn clone(&self) -> Self {
+        AnyProvider(0, 0)
+    }
+}
 
 pub struct Chunk<const N: usize> {
     pub buf: [u8; N],
@@ -35,8 +41,16 @@ pub static mut BUDGET: u32 = 4;
 impl<const N: usize> EepromDataProvider for AnyProvider<N> {
     async fn read_chunk(
         &mut self,
-        _start_word: u16,
+        start_word: u16,
     ) -> Result<impl core::ops::Deref<Target = [u8]>, Error> {
+        // Termination monitor: one reader never goes back to a lower word address (a wrapped
+        // category chain or cursor shows up here even where the arithmetic is unchecked).
+        // self.0: 0 = no access yet, 1 = at least one access by this reader.
+        if self.0 == 1 {
+            assert!(start_word >= self.1);
+        }
+        self.0 = 1;
+        self.1 = start_word;
         unsafe {
             READS += 1;
             // Paths needing more device accesses than the budget are outside the claim.
@@ -70,7 +84,7 @@ fn budget(n: u32) {
 #[kani::unwind(2)]
 pub fn c13_size() {
     budget(4);
-    let e = SubDeviceEeprom::new(AnyProvider::<8>(0));
+    let e = SubDeviceEeprom::new(AnyProvider::<8>(0, 0));
     let r = run_ready(e.size());
     kani::cover!(r.is_ok());
     if let Ok(sz) = r {
@@ -91,7 +105,7 @@ pub fn c13_size() {
 #[kani::unwind(8)]
 pub fn c13_walk_8() {
     budget(6);
-    let e = SubDeviceEeprom::new(AnyProvider::<8>(0));
+    let e = SubDeviceEeprom::new(AnyProvider::<8>(0, 0));
     let r = run_ready(e.items::<crate::eeprom::types::SyncManager>(CategoryType::SyncManager));
     kani::cover!(r.is_ok());
     kani::cover!(unsafe { READS } == 6);
@@ -109,7 +123,7 @@ pub fn c13_walk_8() {
 #[kani::unwind(8)]
 pub fn c13_walk_4() {
     budget(6);
-    let e = SubDeviceEeprom::new(AnyProvider::<4>(0));
+    let e = SubDeviceEeprom::new(AnyProvider::<4>(0, 0));
     let r = run_ready(e.items::<crate::eeprom::types::Pdo>(CategoryType::TxPdo));
     kani::cover!(r.is_ok());
 }
@@ -125,7 +139,7 @@ pub fn c13_walk_4() {
 pub fn c13_range_new_total() {
     let s: u16 = kani::any();
     let l: u16 = kani::any();
-    let mut r = EepromRange::new(AnyProvider::<8>(0), s, l);
+    let mut r = EepromRange::new(AnyProvider::<8>(0, 0), s, l);
     let (pos, end) = r.verif_state();
     // the window never starts after its end and starts at the requested word when representable
     assert!(pos <= end);
@@ -158,10 +172,10 @@ pub fn c13_read_byte_total() {
     let pos: u16 = kani::any();
     let end: u16 = kani::any();
     kani::assume(pos <= end);
-    let mut r = EepromRange::verif_from_state(AnyProvider::<8>(0), pos, end);
+    let mut r = EepromRange::verif_from_state(AnyProvider::<8>(0, 0), pos, end);
     let a = run_ready(r.read_byte());
     kani::cover!(a.is_ok());
-    let mut r4 = EepromRange::verif_from_state(AnyProvider::<4>(0), pos, end);
+    let mut r4 = EepromRange::verif_from_state(AnyProvider::<4>(0, 0), pos, end);
     let b = run_ready(r4.read_byte());
     kani::cover!(b.is_ok());
 }
@@ -180,7 +194,7 @@ pub fn c13_read_total_8() {
     let pos: u16 = kani::any();
     let end: u16 = kani::any();
     kani::assume(pos <= end);
-    let mut r = EepromRange::verif_from_state(AnyProvider::<8>(0), pos, end);
+    let mut r = EepromRange::verif_from_state(AnyProvider::<8>(0, 0), pos, end);
     let mut buf = [0u8; 9];
     let n: usize = kani::any();
     kani::assume(n <= 9);
@@ -211,7 +225,7 @@ pub fn c13_read_total_4() {
     let pos: u16 = kani::any();
     let end: u16 = kani::any();
     kani::assume(pos <= end);
-    let mut r = EepromRange::verif_from_state(AnyProvider::<4>(0), pos, end);
+    let mut r = EepromRange::verif_from_state(AnyProvider::<4>(0, 0), pos, end);
     let mut buf = [0u8; 9];
     let n: usize = kani::any();
     kani::assume(n <= 9);
@@ -255,4 +269,26 @@ pub fn c13_unpack_total() {
     kani::cover!(p.is_ok());
     kani::cover!(g.is_ok());
     kani::cover!(g.is_err());
+}
+
+//@ harness: c13_pdi_offset_total
+//@ property: C13, C08
+//@ tier: quick
+//@ unwind: 2
+//@ functions: PdiOffset::increment_byte_aligned; PdiOffset::increment; PdiOffset::up_to
+//@ bounds: every u16 bit length (device-supplied PDO bit sums) from every offset below 2^31 - complete
+#[kani::proof]
+#[kani::unwind(2)]
+pub fn c13_pdi_offset_total() {
+    use crate::pdi::PdiOffset;
+    let start: u32 = kani::any();
+    kani::assume(start < 0x8000_0000);
+    let bits: u16 = kani::any();
+    let o = PdiOffset { start_address: start };
+    let n = o.increment_byte_aligned(bits);
+    kani::cover!(bits > 65528);
+    // advances by ceil(bits / 8) bytes
+    assert!(n.start_address - start == (u32::from(bits) + 7) / 8);
+    let r = o.up_to(n);
+    assert!(r.len() == ((usize::from(bits) + 7) / 8));
 }
